@@ -75,6 +75,8 @@ class NullCell:
 class Boc:
 
     def __init__(self, data: typing.Union[bytes, str]):
+        if not isinstance(data, (bytes, str)):
+            data = bytes(memoryview(data))  # raw bytes in another container (they used to be taken for text and failed in bytes.fromhex)
         if not isinstance(data, bytes):
             try:
                 data = bytes.fromhex(data)
